@@ -58,8 +58,8 @@ SMAX, SMIN = 987654, 123456
 
 
 def tasks(tier):
-    return ['skeleton', 'range', 'determinism', 'group_calls', 'bounded',
-            'canary']
+    return ['skeleton', 'range', 'determinism', 'group_calls', 'carry',
+            'bounded', 'canary']
 
 
 def helper_obj(m):
@@ -100,6 +100,8 @@ def run_task(task, ctx):
         return task_determinism(ctx, repo)
     if task == 'group_calls':
         return task_group_calls(ctx, repo, m)
+    if task == 'carry':
+        return task_carry(ctx, repo, m)
     if task == 'canary':
         k = z3.Int('ck')
         ctx.canary('canary.must_fail', Obligation('c', [k >= 1], k >= 2))
@@ -177,6 +179,116 @@ def task_group_calls(ctx, repo, m):
                                                  documented=recv + suffix)))
             ctx.function(m, f2, '%s.%s' % (cls, meth), set())
     ctx.prove('group_calls.callbacks_are_called_on_their_own_group', obs)
+
+
+def task_carry(ctx, repo, m):
+    """What the code generator reads from a MegaGroup is what the user put on
+    the Group (every documented option is carried over unchanged); a source
+    loop runs over ALL particles of the source (ghosts included); the
+    destination loop range is D_START_IDX .. NP_DEST."""
+    ma = repo.module('pysph.sph.acceleration_eval')
+    W = ma.path
+    obs = []
+    fn = ma.methods('MegaGroup')['__init__']
+    opts = ('real', 'update_nnps', 'iterate', 'pre', 'post',
+            'max_iterations', 'min_iterations', 'has_subgroups',
+            'condition', 'start_idx', 'stop_idx', 'name')
+    vals = {k: ('VALUE_OF', k) for k in opts}
+    grp = SymObject(None, dict(vals), 'group')
+    me = SymObject('MegaGroup', {}, 'self')
+    me.module = ma.name
+    from pyvc.symexec import CalleeContract
+    ex = Executor(repo, ma, qualname='MegaGroup.__init__', merge=False,
+                  inline={'MegaGroup._copy_props'}, contracts={
+                      'MegaGroup._make_data': CalleeContract(
+                          lambda e, s_, a, k, n: ('DATA_OF', a[1].name))})
+    try:
+        outs = ex.exec_function(fn, dict(self=me, group=grp,
+                                         group_cls='GROUPCLS'))
+        ok = len(outs) == 1
+        got = outs[0].state.env['self'].attrs if ok else {}
+        missing = [k for k in opts if got.get(k) != vals[k]]
+        ok = ok and not missing and got.get('data') == ('DATA_OF', 'group') \
+            and got.get('Group') == 'GROUPCLS'
+    except VCError as e:
+        ok, missing = False, [str(e)]
+    ctx.function(ma, fn, 'MegaGroup.__init__')
+    ctx.function(ma, ma.methods('MegaGroup')['_copy_props'],
+                 'MegaGroup._copy_props')
+    obs.append(Obligation('carry.megagroup_has_every_group_option', [],
+                          z3.BoolVal(bool(ok)), W,
+                          extra=dict(not_carried=missing)))
+    # the convergence test of an iterated MegaGroup asks EVERY equation of
+    # the group (all destinations, all sub-groups), each once
+    fn = ma.methods('MegaGroup')['get_converged_condition']
+
+    def cg(cond):
+        return SymObject(None, dict(get_converged_condition=Native(
+            lambda e, s_, a, k, n: cond)), 'g')
+    for sub in (False, True):
+        orig = cg('(A) & (B) & (C)')
+        if sub:
+            data = [cg('(A)'), cg('(B) & (C)')]
+        else:
+            data = {'d0': (cg(''), {}, cg('(A) & (B)')),
+                    'd1': (cg(''), {}, cg('(C)'))}
+        me2 = SymObject('MegaGroup', dict(_orig_group=orig, data=data,
+                                          has_subgroups=sub), 'self')
+        me2.module = ma.name
+        ex = Executor(repo, ma, qualname='MegaGroup.get_converged_condition',
+                      merge=False)
+        try:
+            outs = ex.exec_function(fn, dict(self=me2))
+            got = outs[0].value if len(outs) == 1 else None
+        except VCError as e:
+            got = 'error: %s' % e
+        terms = sorted(t.strip() for t in str(got).split('&'))
+        obs.append(Obligation('carry.converged_condition_asks_every_equation'
+                              '.%s' % ('subgroups' if sub else 'plain'), [],
+                              z3.BoolVal(terms == ['(A)', '(B)', '(C)']),
+                              W, extra=dict(emitted=str(got)[:120])))
+    ctx.function(ma, fn, 'MegaGroup.get_converged_condition')
+    # source set-up: all particles of the source
+    cls = 'AccelerationEvalCythonHelper'
+    fn = m.methods(cls)['get_src_array_setup']
+    g1 = SymObject(None, dict(get_array_names=Native(
+        lambda e, s_, a, k, n: (set(['s_x', 's_m']), set(['d_au'])))), 'g1')
+    ex = Executor(repo, m, qualname=cls + '.get_src_array_setup',
+                  merge=False)
+    outs = ex.exec_function(fn, dict(self=helper_obj(m), src_name='solid',
+                                     eq_group=g1))
+    ctx.function(m, fn, cls + '.get_src_array_setup')
+    want = 'NP_SRC = self.solid.size()\ns_m = src.m.data\ns_x = src.x.data'
+    got = outs[0].value if len(outs) == 1 else None
+    obs.append(Obligation('carry.source_loop_covers_all_source_particles',
+                          [], z3.BoolVal(got == want), m.path,
+                          extra=dict(emitted=str(got)[:200],
+                                     documented=want)))
+    # destination loop range
+    fn = m.methods(cls)['get_parallel_range']
+    seen = []
+    for start, stop in ((0, None), (3, None), (0, 'n_stop'), ('n_start', 7)):
+        for nogil in (True, False):
+            grp = SymObject(None, dict(start_idx=start, stop_idx=stop),
+                            'group')
+            ex = Executor(repo, m, qualname=cls + '.get_parallel_range',
+                          merge=False, externals={
+                              'get_parallel_range': lambda e, s_, a, k, n:
+                              ('RANGE', tuple(a), tuple(sorted(k.items())))})
+            outs = ex.exec_function(fn, dict(self=helper_obj(m), group=grp,
+                                             nogil=nogil))
+            got = outs[0].value if len(outs) == 1 else None
+            kw = {}
+            if stop is not None or start:
+                kw.update(schedule='dynamic', chunksize=None)
+            if nogil:
+                kw['nogil'] = True
+            seen.append(got == ('RANGE', ('D_START_IDX', 'NP_DEST'),
+                                tuple(sorted(kw.items()))))
+    ctx.function(m, fn, cls + '.get_parallel_range')
+    obs.append(Obligation('carry.destination_loop_is_start_to_np_dest', [],
+                          z3.BoolVal(all(seen)), m.path))
+    ctx.prove('carry.group_options_and_loop_ranges_reach_the_generator', obs)
 
 
 def task_determinism(ctx, repo):
